@@ -634,7 +634,30 @@ func (q *TransferQueue) enqueueAndCollectRetriesFor(batch batch) (batch, error) 
 		}
 	}
 
+	// Every object of this batch is waited for until the response accounts
+	// for it. Remember which ones are still outstanding so that an object the
+	// server leaves out is reported instead of being waited for forever, and
+	// an object the server lists twice (or did not get asked about in this
+	// batch) is not completed twice.
+	outstanding := make(map[string]*objectTuple, len(batch))
+	batchOids := make(map[string]struct{}, len(batch))
+	for _, t := range batch {
+		outstanding[t.Oid] = t
+		batchOids[t.Oid] = struct{}{}
+	}
+	failOmitted := func() {
+		for _, t := range batch {
+			if _, ok := outstanding[t.Oid]; ok {
+				delete(outstanding, t.Oid)
+				q.errorc <- errors.New(tr.Tr.Get("[%v] The server did not return this object in its batch response.", t.Oid))
+				q.Skip(t.Size)
+				q.wait.Done()
+			}
+		}
+	}
+
 	if len(bRes.Objects) == 0 {
+		failOmitted()
 		return next, nil
 	}
 
@@ -660,6 +683,17 @@ func (q *TransferQueue) enqueueAndCollectRetriesFor(batch batch) (batch, error) 
 	toTransfer := make([]*Transfer, 0, len(bRes.Objects))
 
 	for _, o := range bRes.Objects {
+		if _, ok := outstanding[o.Oid]; !ok {
+			// Not an object of this batch that still awaits an
+			// answer: nothing is waiting on it, so report it (unless
+			// it merely repeats an earlier entry) and move on.
+			if _, inBatch := batchOids[o.Oid]; !inBatch {
+				q.errorc <- errors.New(tr.Tr.Get("[%v] The server returned an unknown OID.", o.Oid))
+			}
+			continue
+		}
+		delete(outstanding, o.Oid)
+
 		if o.Error != nil {
 			q.errorc <- errors.Wrapf(o.Error, "[%v] %v", o.Oid, o.Error.Message)
 			q.Skip(o.Size)
@@ -703,6 +737,8 @@ func (q *TransferQueue) enqueueAndCollectRetriesFor(batch batch) (batch, error) 
 			}
 		}
 	}
+
+	failOmitted()
 
 	retries := q.addToAdapter(bRes.endpoint, toTransfer)
 	for t := range retries {
